@@ -457,7 +457,7 @@ namespace svmon
   struct RunStats { long chunks; long deaths; };
 
   template <typename Fn>
-  inline RunStats run_forked (uint64_t first, uint64_t last, uint64_t chunk, Fn fn, unsigned timeout_s = 600)
+  inline RunStats run_forked (uint64_t first, uint64_t last, uint64_t chunk, Fn fn, unsigned timeout_s = 600, long max_deaths = 40)
   {
     RunStats st; st.chunks = 0; st.deaths = 0;
     CaseMarker *shared = static_cast<CaseMarker *> (
@@ -504,10 +504,25 @@ namespace svmon
       std::fflush (stdout);
       next = shared->case_index + 1;   // skip the case that killed the child
       if (next <= first && shared->case_index < first) next = end;
+      if (st.deaths >= max_deaths)
+      {
+        std::fprintf (stdout, "{\"type\":\"death-limit\",\"deaths\":%ld,\"stopped_at\":%llu,\"total\":%llu}\n", st.deaths,
+                      static_cast<unsigned long long> (next), static_cast<unsigned long long> (last));
+        std::fflush (stdout);
+        break;
+      }
     }
     munmap (shared, sizeof (CaseMarker));
     return st;
   }
+
+  enum Outcome { OUT_NORMAL = 0, OUT_FAULT, OUT_FAULT_ALLOC, OUT_LENGTH, OUT_RANGE, OUT_BADALLOC, OUT_OTHER, OUT_SKIPPED };
+  inline const char *outcome_name (int o)
+  {
+    static const char *n[] = { "normal", "fault", "fault-alloc", "length_error", "out_of_range", "bad_alloc", "other-exception", "skipped" };
+    return n[o];
+  }
+
 
   // argv helpers
   inline const char *arg_str (int argc, char **argv, const char *name, const char *dflt)
